@@ -5,6 +5,8 @@ CONSTANTS NP = 1
           Devs = {}
           Cfgs = {}
           Msgs = {}
+          GFamily = "pool"
+          GReplaces = {TRUE}
           GD = 2
           GE = 2
           GLen = 1
